@@ -16,6 +16,7 @@ depth is reported).
 """
 from __future__ import annotations
 import copy
+import hashlib
 import itertools
 import collections
 
@@ -61,6 +62,8 @@ CONTEXTS = {
     "recip": lambda s: Recip(s),
     "exp": lambda s: Exp(s),
     "pow_S_y": lambda s: Pow(s, y),
+    "minus_S_y": lambda s: Minus(s, y),
+    "div_S_y": lambda s: Div(s, y),
 }
 POINTS = [{"x": 2, "y": 3}, {"x": 0.5, "y": 1.5}, {"x": 0, "y": 0}, {"x": 2}]
 VARS = ("x", "y")
@@ -105,7 +108,17 @@ def make_pool(spec: PoolSpec):
         memo = {memo_key: s}
         return A.build(t, True, memo)
 
-    pool = {"e1": build_with_shared(spec.t1), "e2": build_with_shared(spec.t2),
+    pool = {"e1": build_with_shared(spec.t1), "e2": build_with_shared(spec.t2), "s": s,
+            "pts": [Point(**p) for p in spec.points], "outs": {}}
+    for sl in spec.slots:
+        pool[sl] = None
+    return pool
+
+
+def make_standalone(spec: PoolSpec):
+    """Freshly built, never-used copies: every expression built on its own (tree mode, nothing shared
+    between e1, e2 and s).  This is what the answers of the pooled objects are compared with."""
+    pool = {"e1": A.build(spec.t1), "e2": A.build(spec.t2), "s": A.build(spec.shared),
             "pts": [Point(**p) for p in spec.points], "outs": {}}
     for sl in spec.slots:
         pool[sl] = None
@@ -115,13 +128,19 @@ def make_pool(spec: PoolSpec):
 def ops_for(spec: PoolSpec):
     ops = []
     np_ = len(spec.points)
-    for e in ("e1", "e2"):
+    terms = {"e1": spec.t1, "e2": spec.t2, "s": spec.shared}
+    for e in ("e1", "e2", "s"):
         for j in range(np_):
+            if e == "s" and j >= 2:
+                continue
             ops.append(("at", e, j))
-            ops.append(("LD", e, j, "x"))
-        if len(M.variables(spec.t1 if e == "e1" else spec.t2)) <= 1:
+            if e != "s":
+                ops.append(("LD", e, j, "x"))
+        if len(M.variables(terms[e])) <= 1:
             ops.append(("at_num", e, 2))
-            ops.append(("at_num", e, 0))
+            ops.append(("D.at_num", e, 2))
+            if e != "s":
+                ops.append(("at_num", e, 0))
     for sl in spec.slots:
         ops.append(("new", sl))
         kind = sl[0:2]
@@ -143,7 +162,7 @@ def ops_for(spec: PoolSpec):
 
 def enabled(pool, op):
     k = op[0]
-    if k in ("at", "at_num", "LD", "new"):
+    if k in ("at", "at_num", "LD", "new", "D.at_num"):
         return True
     if k == "out.at":
         return (op[1], None) in pool["outs"]
@@ -160,6 +179,8 @@ def apply_op(pool, op):
         return A.outcome(lambda: pool[op[1]].at(op[2]))
     if k == "LD":
         return A.outcome(lambda: LocatedDifferential(pool[op[1]], pts[op[2]]).component(op[3]))
+    if k == "D.at_num":
+        return A.outcome(lambda: Derivative(pool[op[1]]).at(op[2]))
     if k == "new":
         eslot, ctor = SLOT_KINDS[op[1]]
         c = A.construct(lambda: ctor(pool[eslot]))
@@ -195,12 +216,65 @@ def apply_op(pool, op):
 
 def prerequisites(op):
     k = op[0]
-    if k in ("at", "at_num", "LD", "new"):
+    if k in ("at", "at_num", "LD", "new", "D.at_num"):
         return []
     pre = [("new", op[1])]
     if k == "out.at":
         pre.append(("asexpr", op[1]))
     return pre
+
+
+# ---------------------------------------------------------------- snapshots
+_ATOMS = (int, float, str, bool, bytes, type(None))
+
+
+def clone(obj, memo=None):
+    """Deep copy that preserves sharing (same contract as copy.deepcopy for the plain objects the
+    library is made of; about 3x faster).  Falls back to copy.deepcopy for anything unusual."""
+    if memo is None:
+        memo = {}
+    return _clone(obj, memo)
+
+
+def _clone(obj, memo):
+    t = type(obj)
+    if t in _ATOMS:
+        return obj
+    i = id(obj)
+    hit = memo.get(i)
+    if hit is not None:
+        return hit
+    if t is list:
+        new = []
+        memo[i] = new
+        new.extend(_clone(x, memo) for x in obj)
+        return new
+    if t is dict:
+        new = {}
+        memo[i] = new
+        for k, v in obj.items():
+            new[_clone(k, memo)] = _clone(v, memo)
+        return new
+    if t is tuple:
+        new = tuple(_clone(x, memo) for x in obj)
+        memo[i] = new
+        return new
+    if t is set:
+        new = set(_clone(x, memo) for x in obj)
+        memo[i] = new
+        return new
+    d = getattr(obj, "__dict__", None)
+    if d is not None and not isinstance(obj, type) and t.__reduce_ex__ is object.__reduce_ex__ and \
+            not any(getattr(k, "__slots__", None) for k in t.__mro__):
+        new = object.__new__(t)
+        memo[i] = new
+        nd = new.__dict__
+        for k, v in d.items():
+            nd[k] = _clone(v, memo)
+        return new
+    new = copy.deepcopy(obj, memo)
+    memo[i] = new
+    return new
 
 
 # ---------------------------------------------------------------- canonical state
@@ -214,55 +288,129 @@ def _kids(n):
     return ()
 
 
-def canon(pool, spec):
+def canon(pool, spec, gsnap=None):
+    """Canonical form of a state: every object reachable from the pool with *all* of its instance
+    attributes (so a memo field added by a change is part of the state, not only the fields the
+    unchanged library has), back-references for shared objects, plus the library's mutable
+    module-/class-level containers (gsnap)."""
     ids = {}
+    toks = []
+    ap = toks.append
 
-    def enc(e):
-        if e is None:
-            return None
-        i = ids.get(id(e))
-        if i is not None:
-            return ("ref", i)
-        ids[id(e)] = len(ids)
-        cls = e.__class__.__name__
-        par = None
-        if cls == "Variable":
-            par = e.name
-        elif cls == "Constant":
-            par = repr(e.value)
-        elif hasattr(e, "_parameter"):
-            par = repr(e._parameter)
-        kids = _kids(e)
-        return (cls, par, repr(getattr(e, "_value", None)), bool(e._is_fully_reduced), bool(e._evaluation_failed),
-                tuple(sorted(e._variable_names)), tuple(enc(c) for c in kids))
+    def enc(v):
+        t = type(v)
+        if t in _ATOMS:
+            ap(repr(v))
+        elif t is list or t is tuple:
+            ap("[")
+            for i in v:
+                enc(i)
+            ap("]")
+        elif t is set or t is frozenset:
+            ap("{" + ",".join(sorted(map(repr, v))) + "}")
+        elif t is dict:
+            ap("d{")
+            try:
+                keys = sorted(v)
+            except TypeError:
+                keys = sorted(v, key=repr)
+            for k in keys:
+                if type(k) in _ATOMS or type(k) is tuple:
+                    ap(repr(k))
+                else:
+                    enc(k)
+                enc(v[k])
+            ap("}")
+        elif hasattr(v, "__dict__") and not isinstance(v, type):
+            i = ids.get(id(v))
+            if i is not None:
+                ap("@%d" % i)
+                return
+            ids[id(v)] = len(ids)
+            ap(t.__name__ + "(")
+            d = v.__dict__
+            for k in sorted(d):
+                ap(k)
+                enc(d[k])
+            ap(")")
+        else:
+            ap("?" + t.__name__ + repr(v))
 
-    def enc_obj(o):
-        if o is None:
-            return None
-        cls = o.__class__.__name__
-        if cls == "Partial":
-            return (cls, enc(o._original_expression), o._variable_name, enc(o._synthetic_partial))
-        if cls == "Derivative":
-            return (cls, enc(o._original_expression), o._variable_name, enc_obj(o._partial))
-        if cls == "Differential":
-            sp = o._synthetic_partials
-            return (cls, enc(o._original_expression),
-                    None if sp is None else tuple((k, enc(v)) for k, v in sorted(sp.items())))
-        raise ValueError(cls)
-
-    parts = [enc(pool["e1"]), enc(pool["e2"])]
+    enc(pool["e1"])
+    enc(pool["e2"])
+    enc(pool["s"])
     for sl in spec.slots:
-        parts.append(enc_obj(pool[sl]))
-    parts.append(tuple((k, enc(v)) for k, v in sorted(pool["outs"].items(), key=lambda kv: (kv[0][0], str(kv[0][1])))))
-    parts.append(tuple(tuple(sorted((k, repr(v)) for k, v in p._coordinates.items())) for p in pool["pts"]))
-    return tuple(parts)
+        ap(sl)
+        enc(pool[sl])
+    ap("outs")
+    for k in sorted(pool["outs"], key=lambda kk: (kk[0], str(kk[1]))):
+        ap(repr(k))
+        enc(pool["outs"][k])
+    ap("pts")
+    for p in pool["pts"]:
+        enc(p)
+    if gsnap:
+        ap("globals")
+        for k in sorted(gsnap):
+            ap(k)
+            enc(gsnap[k])
+    return hashlib.blake2b("\x1f".join(toks).encode("utf-8", "surrogatepass"), digest_size=16).digest()
+
+
+# ---------------------------------------------------------------- library-level mutable globals
+class LibraryGlobals:
+    """Mutable module-level and class-level containers of the library (dict / list / set).  The
+    unchanged library has none; a change that adds a module-level cache makes answers depend on what was
+    computed before in the process, so these are part of the explored state: captured after every
+    transition, restored before every transition."""
+
+    def __init__(self):
+        import sys as _sys
+        import types
+        self.slots = []          # (owner object, attribute name)
+        for name, mod in list(_sys.modules.items()):
+            if not (name == "smoothmath" or name.startswith("smoothmath.")) or mod is None:
+                continue
+            for attr, val in list(vars(mod).items()):
+                if attr.startswith("__"):
+                    continue
+                if isinstance(val, (dict, list, set)):
+                    self.slots.append((mod, attr))
+                elif isinstance(val, type) and getattr(val, "__module__", "").startswith("smoothmath"):
+                    for cattr, cval in list(vars(val).items()):
+                        if not cattr.startswith("__") and isinstance(cval, (dict, list, set)):
+                            self.slots.append((val, cattr))
+        seen = set()
+        uniq = []
+        for owner, attr in self.slots:
+            k = (id(owner), attr)
+            if k not in seen:
+                seen.add(k)
+                uniq.append((owner, attr))
+        self.slots = uniq
+
+    def capture(self):
+        return {f"{getattr(o, '__name__', o)}.{a}": copy.deepcopy(getattr(o, a)) for o, a in self.slots}
+
+    def restore(self, snap):
+        for o, a in self.slots:
+            cur = getattr(o, a)
+            val = copy.deepcopy(snap[f"{getattr(o, '__name__', o)}.{a}"])
+            if isinstance(cur, dict):
+                cur.clear()
+                cur.update(val)
+            elif isinstance(cur, list):
+                cur[:] = val
+            elif isinstance(cur, set):
+                cur.clear()
+                cur.update(val)
 
 
 def is_dirty(pool, spec, op):
     """Some node reachable from the call's target carries a memo or a flag (history can matter)."""
     targets = []
     k = op[0]
-    if k in ("at", "at_num", "LD"):
+    if k in ("at", "at_num", "LD", "D.at_num"):
         targets.append(pool[op[1]])
     elif k == "new":
         targets.append(pool[SLOT_KINDS[op[1]][0]])
@@ -325,10 +473,14 @@ class Baselines:
     def __init__(self, spec):
         self.spec = spec
         self.cache = {}
+        self.globals = None
+        self.g0 = None
 
     def get(self, op):
         if op not in self.cache:
-            pool = make_pool(self.spec)
+            if self.globals is not None and self.globals.slots:
+                self.globals.restore(self.g0)
+            pool = make_standalone(self.spec)
             for pre in prerequisites(op):
                 apply_op(pool, pre)
             self.cache[op] = apply_op(pool, op)
@@ -338,8 +490,8 @@ class Baselines:
 def c10_problems(pool, spec, fresh_reprs, fresh_evals):
     """Invariant evaluated on a deep copy of the state."""
     probs = []
-    pc = copy.deepcopy(pool)
-    fresh = make_pool(spec)
+    pc = clone(pool)
+    fresh = make_standalone(spec)
     for name in ("e1", "e2"):
         e, f = pc[name], fresh[name]
         if not (e == f) or e != f:
@@ -378,7 +530,7 @@ def c10_problems(pool, spec, fresh_reprs, fresh_evals):
 
 
 def fresh_tables(spec, base: Baselines):
-    pool = make_pool(spec)
+    pool = make_standalone(spec)
     reprs = {"e1": repr(pool["e1"]), "e2": repr(pool["e2"])}
     evals = {}
     for name in ("e1", "e2"):
@@ -388,13 +540,13 @@ def fresh_tables(spec, base: Baselines):
         if sl[0] == "P" or sl[0:2] == "D1":
             o = base.get(("asexpr", sl))
             if o[0] == "expr":
-                p2 = make_pool(spec)
+                p2 = make_standalone(spec)
                 apply_op(p2, ("new", sl))
                 apply_op(p2, ("asexpr", sl))
                 reprs[("out", sl, None)] = repr(p2["outs"][(sl, None)])
         else:
             for v in VARS:
-                p2 = make_pool(spec)
+                p2 = make_standalone(spec)
                 apply_op(p2, ("new", sl))
                 o = apply_op(p2, ("Df.component.asexpr", sl, v))
                 if o[0] == "expr":
@@ -411,6 +563,8 @@ def show_op(spec, op):
         return f"{op[1]}.at({op[2]})"
     if k == "LD":
         return f"LocatedDifferential({op[1]}, {P(op[2])}).component('{op[3]}')"
+    if k == "D.at_num":
+        return f"Derivative({op[1]}).at({op[2]})"
     if k == "new":
         return f"{op[1]} = new {op[1]} over {SLOT_KINDS[op[1]][0]}"
     if k == "obj.at":
@@ -433,11 +587,17 @@ def explore(spec: PoolSpec, state_cap, check_c10, st: Stats, f3_pool=False):
     """BFS over histories.  Returns dict with counts and the first violations (with shortest histories)."""
     ops = ops_for(spec)
     base = Baselines(spec)
+    G = LibraryGlobals()
+    g0 = G.capture()          # taken before anything is built: the state of a fresh process
+    base.globals, base.g0 = G, g0
     fresh_reprs, fresh_evals = fresh_tables(spec, base)
+    if G.slots:
+        G.restore(g0)
     init = make_pool(spec)
-    k0 = canon(init, spec)
+    ginit = G.capture()
+    k0 = canon(init, spec, ginit)
     seen = {k0: 0}
-    frontier = collections.deque([(init, ())])
+    frontier = collections.deque([(init, (), ginit)])
     states = 1
     transitions = 0
     dirty_transitions = 0
@@ -450,23 +610,26 @@ def explore(spec: PoolSpec, state_cap, check_c10, st: Stats, f3_pool=False):
         if pr:
             v10.append(((), pr[0]))
     while frontier:
-        pool, hist = frontier.popleft()
+        pool, hist, gsnap = frontier.popleft()
         depth_done = max(depth_done, len(hist))
         for op in ops:
             if not enabled(pool, op):
                 continue
-            nxt = copy.deepcopy(pool)
+            want = base.get(op)              # (computed in the fresh-process state, then cached)
+            if G.slots:
+                G.restore(gsnap)
+            nxt = clone(pool)
             dirty = is_dirty(nxt, spec, op)
             sw = switched_path(nxt, op)
             got = apply_op(nxt, op)
+            gnext = G.capture() if G.slots else gsnap
             transitions += 1
             dirty_transitions += 1 if dirty else 0
             distinct_outcomes.add((op, got[0]))
-            want = base.get(op)
             if not same_outcome(want, got, sw):
                 if len(v09) < 5:
                     v09.append((hist + (op,), f"{show_op(spec, op)} -> {_short(got)} but on a never-used pool -> {_short(want)}"))
-            key = canon(nxt, spec)
+            key = canon(nxt, spec, gnext)
             if key in seen:
                 continue
             if states >= state_cap:
@@ -478,7 +641,9 @@ def explore(spec: PoolSpec, state_cap, check_c10, st: Stats, f3_pool=False):
                 pr = c10_problems(nxt, spec, fresh_reprs, fresh_evals)
                 if pr and len(v10) < 5:
                     v10.append((hist + (op,), pr[0]))
-            frontier.append((nxt, hist + (op,)))
+                if G.slots:
+                    G.restore(gnext)
+            frontier.append((nxt, hist + (op,), gnext))
     return {"states": states, "transitions": transitions, "dirty": dirty_transitions, "capped": capped,
             "depth": depth_done, "ops": len(ops), "v09": v09, "v10": v10,
             "distinct_outcomes": len(distinct_outcomes)}
